@@ -201,31 +201,45 @@ RenderQ(q, s, g, c) == [r \in 1..g.h |-> LET sl == SlotAt(r - 1, g, c) IN
                            RTrim(IF sl.kind = "prompt" THEN PromptRow(q, s, g, c) ELSE SlotRow(sl, s, g, c))]
 
 -------------------------------------------------------------------------------
-(* DOCUMENTED claims, stated on an observed screen `rows` (captured or rendered) *)
+(* DOCUMENTED claims, stated on an observed screen `rows` (captured or rendered).  Pointer, marker and prompt    *)
+(* are narrow (one column per cell) in the comparable configuration.                                              *)
 RowsOf(kind, g, c) == {r \in 1..g.h : SlotAt(r - 1, g, c).kind = kind}
 
 ClaimHeight(rows, g) == Len(rows) = g.h
 ClaimWidth(rows, g) == \A r \in 1..Len(rows) : TW(rows[r], g) <= g.w
 
+(* room for the info text where the style puts it, given the displayed part q of the query (CODE-DERIVED) *)
+InfoRoom(q, s, g, c) ==
+    LET pos0 == TW(c.prompt, g) + TW(q, g) + 1 IN
+    CASE c.info = "default" -> g.w - 3
+      [] c.info = "right" -> g.w - 2
+      [] c.info = "inline" -> g.w - (pos0 + 3) - 1
+      [] c.info = "inline-right" -> g.w - (pos0 + 2) - 1
+      [] OTHER -> g.w
+InfoFits(q, s, g, c) == Len(InfoText(s)) <= InfoRoom(q, s, g, c)
+
 (* "the prompt line shows the current query": the prompt, then the query - or, when the query is longer than the *)
 (* line, a contiguous part of it that contains the cursor position *)
-ShowsQuery(row, s, g, c) ==
+InlineInfo(c) == c.info \in {"inline", "inline-right"}
+ShowsPart(row, q, g, c) ==
     LET p == PromptPart(c, g) IN
-    IF QueryFits(s, g, c) THEN IsPrefix(RTrim(p \o s.input), row) \/ IsPrefix(p \o s.input, row)
+    IF InlineInfo(c) THEN IsPrefix(p \o q \o <<" ">>, row \o <<" ">>) ELSE row = RTrim(p \o q)
+ShowsQuery(row, s, g, c) ==
+    IF QueryFits(s, g, c) THEN ShowsPart(row, s.input, g, c)
     ELSE \E i \in 1..(Len(s.input) + 1) : \E j \in (i - 1)..Len(s.input) :
             /\ i - 1 <= s.cx /\ s.cx <= j
-            /\ IsPrefix(RTrim(p \o Sub(s.input, i, j)), row)
-            /\ j - i + 1 >= Min2(Len(s.input), PromptRoom(g, c) \div 2)        \* a real part, not a token one
+            /\ 4 * (j - i + 1) >= PromptRoom(g, c) - 3                 \* a real part of it, not a token one
+            /\ ShowsPart(row, Sub(s.input, i, j), g, c)
 ClaimPrompt(rows, s, g, c) == \A r \in RowsOf("prompt", g, c) : ShowsQuery(rows[r], s, g, c)
 
-(* "the info line shows matched/total (and selected) counts" *)
+(* "the info line shows matched/total (and selected) counts" (wherever --info puts it, when there is room) *)
 InfoShown(s) == Digits(N(s)) \o <<"/">> \o Digits(Max2(N(s), s.count))
 SelShown(s) == IF s.multi = 0 THEN <<>>
                ELSE IF s.multi = MaxMulti THEN <<"(">> \o Digits(Len(s.sel)) \o <<")">>
                ELSE <<"(">> \o Digits(Len(s.sel)) \o <<"/">> \o Digits(s.multi) \o <<")">>
-InfoRowIx(g, c) == IF c.info \in {"inline", "inline-right"} THEN RowsOf("prompt", g, c) ELSE RowsOf("info", g, c)
+InfoRowIx(g, c) == IF InlineInfo(c) THEN RowsOf("prompt", g, c) ELSE RowsOf("info", g, c)
 ClaimInfo(rows, s, g, c) ==
-    c.info # "hidden" /\ ~c.inputless =>
+    (c.info # "hidden" /\ ~c.inputless /\ QueryFits(s, g, c) /\ InfoFits(s.input, s, g, c)) =>
         \A r \in InfoRowIx(g, c) : Contains(rows[r], InfoShown(s)) /\ Contains(rows[r], SelShown(s))
 
 (* "each list row shows the corresponding result line - complete when it fits, otherwise truncated with the      *)
@@ -236,28 +250,22 @@ ShowsLine(body, t, g, c) ==
        /\ \E k \in 0..(Len(t) - 1) : body = RTrim(Sub(t, 1, k) \o c.ellipsis)
 ItemShown(row, k, s, g, c) ==
     LET i == s.offset + k + 1
-        pl == PLen(c, g)
-        ml == MLen(c, g)
-        padded == row \o Spaces(Indent(c, g))                          \* a blank pointer/marker may have been trimmed
-        ptr == Sub(padded, 1, Len(c.pointer))
-        cur == s.offset + k = s.cy
-        mrk == IF cur THEN Sub(padded, Len(c.pointer) + 1, Len(c.pointer) + Len(c.marker))
-               ELSE Sub(padded, pl + 1, pl + Len(c.marker))
-        sel == Selected(s.list[i], s)
-        body == Sub(row, (IF cur THEN Len(c.pointer) ELSE pl) + (IF sel THEN Len(c.marker) ELSE ml) + 1, Len(row))
-    IN /\ (cur <=> ptr = c.pointer)
-       /\ (~cur => Sub(padded, 1, pl) = Spaces(pl))
-       /\ (sel <=> mrk = c.marker)
-       /\ (~sel => Sub(padded, (IF cur THEN Len(c.pointer) ELSE pl) + 1, (IF cur THEN Len(c.pointer) ELSE pl) + ml) = Spaces(ml))
-       /\ ShowsLine(body, s.texts[i], g, c)
+        pl == Len(c.pointer)
+        ml == Len(c.marker)
+        padded == row \o Spaces(pl + ml)                               \* blank pointer/marker columns may have been trimmed
+    IN /\ Sub(padded, 1, pl) = (IF s.offset + k = s.cy THEN c.pointer ELSE Spaces(pl))
+       /\ Sub(padded, pl + 1, pl + ml) = (IF Selected(s.list[i], s) THEN c.marker ELSE Spaces(ml))
+       /\ ShowsLine(RTrim(Sub(padded, pl + ml + 1, Len(padded))), s.texts[i], g, c)
 ClaimList(rows, s, g, c) ==
     \A r \in RowsOf("item", g, c) :
         LET k == SlotAt(r - 1, g, c).ix IN
         IF s.offset + k < N(s) THEN ItemShown(rows[r], k, s, g, c) ELSE rows[r] = <<>>
 
 (* "Header lines appear where the layout puts them and are never part of the list" *)
-HeaderShown(row, t, g, c) == /\ IsPrefix(Sub(row, 1, Min2(Len(row), Indent(c, g))), Spaces(Indent(c, g)))
-                             /\ ShowsLine(Sub(row, Indent(c, g) + 1, Len(row)), t, g, c)
+HeaderShown(row, t, g, c) ==
+    LET ind == Indent(c, g)
+        padded == row \o Spaces(ind)
+    IN Sub(padded, 1, ind) = Spaces(ind) /\ ShowsLine(RTrim(Sub(padded, ind + 1, Len(padded))), t, g, c)
 ClaimHeader(rows, g, c) ==
     /\ \A r \in RowsOf("header", g, c) : HeaderShown(rows[r], HdrStack(c)[SlotAt(r - 1, g, c).ix], g, c)
     /\ \A r \in RowsOf("hline", g, c) : HeaderShown(rows[r], c.hlines[SlotAt(r - 1, g, c).ix], g, c)
@@ -272,17 +280,20 @@ Claims(rows, s, g, c) ==
     /\ ClaimHeader(rows, g, c)
     /\ ClaimBlank(rows, g, c)
 FailedClaims(rows, s, g, c) ==
-    IF ~ClaimHeight(rows, g) THEN <<"height">>
-    ELSE (IF ClaimWidth(rows, g) THEN <<>> ELSE <<"width">>)
-         \o (IF ClaimPrompt(rows, s, g, c) THEN <<>> ELSE <<"prompt">>)
-         \o (IF ClaimInfo(rows, s, g, c) THEN <<>> ELSE <<"info">>)
-         \o (IF ClaimList(rows, s, g, c) THEN <<>> ELSE <<"list">>)
-         \o (IF ClaimHeader(rows, g, c) THEN <<>> ELSE <<"header">>)
-         \o (IF ClaimBlank(rows, g, c) THEN <<>> ELSE <<"blank">>)
+    IF ~ClaimHeight(rows, g) THEN "height"
+    ELSE (IF ClaimWidth(rows, g) THEN "" ELSE "width ")
+         \o (IF ClaimPrompt(rows, s, g, c) THEN "" ELSE "prompt ")
+         \o (IF ClaimInfo(rows, s, g, c) THEN "" ELSE "info ")
+         \o (IF ClaimList(rows, s, g, c) THEN "" ELSE "list ")
+         \o (IF ClaimHeader(rows, g, c) THEN "" ELSE "header ")
+         \o (IF ClaimBlank(rows, g, c) THEN "" ELSE "blank ")
 
 -------------------------------------------------------------------------------
 (* Properties of the placement (checked by MC_Screen on all small geometries and configurations) *)
-ItemRowOf(k, g, c) == CHOOSE r \in 1..g.h : SlotAt(r - 1, g, c) = [kind |-> "item", ix |-> k]
+HeaderStackIx(i, c) == IF c.layout = "reverse" THEN i ELSE Len(c.header) + 1 - i      \* where c.header[i] is in HdrStack
+HeaderRowsOf(i, g, c) == {r \in 1..g.h : SlotAt(r - 1, g, c) = [kind |-> "header", ix |-> HeaderStackIx(i, c)]}
+HlineRowsOf(j, g, c) == {r \in 1..g.h : \/ SlotAt(r - 1, g, c) = [kind |-> "hline", ix |-> j]
+                                        \/ (~Split(c) /\ SlotAt(r - 1, g, c) = [kind |-> "header", ix |-> Len(c.header) + j])}
 PlaceOK(g, c) ==
     LET P == Place(g, c)
         items == RowsOf("item", g, c)
@@ -303,16 +314,18 @@ PlaceOK(g, c) ==
        /\ (roomy => Cardinality(hdrs) = NHeader(c))
        /\ \A r \in hdrs : \A r1, r2 \in items : ~(r1 < r /\ r < r2)
        \* the lines of --header read top to bottom in every layout
-       /\ \A r1, r2 \in RowsOf("header", g, c) :
-            LET H(r) == HdrStack(c)[P[r].ix] IN
-            \A i1, i2 \in 1..Len(c.header) :
-               (r1 < r2 /\ P[r1].ix # P[r2].ix /\ H(r1) = c.header[i1] /\ H(r2) = c.header[i2]
-                /\ (c.layout = "reverse" => P[r1].ix <= Len(c.header) /\ P[r2].ix <= Len(c.header))
-                /\ (c.layout # "reverse" => P[r1].ix <= Len(c.header) /\ P[r2].ix <= Len(c.header))
-                /\ Cardinality(Range(c.header)) = Len(c.header)) => i1 < i2
-       \* the prompt sits at the edge the layout names, the list on the other side of the info line
+       /\ \A i1, i2 \in 1..Len(c.header) : i1 < i2 =>
+            \A r1 \in HeaderRowsOf(i1, g, c), r2 \in HeaderRowsOf(i2, g, c) : r1 < r2
+       \* the header lines of the input continue in the direction of the list
+       /\ \A j1, j2 \in 1..Len(c.hlines) : j1 < j2 =>
+            \A r1 \in HlineRowsOf(j1, g, c), r2 \in HlineRowsOf(j2, g, c) :
+               IF c.layout = "default" THEN r1 > r2 ELSE r1 < r2
+       \* the prompt sits at the edge the layout names (the header beyond it with --header-first)
        /\ (roomy /\ ~c.inputless /\ ~c.headerFirst =>
              IF c.layout = "reverse" THEN P[1].kind = "prompt" ELSE P[g.h].kind = "prompt")
-       /\ (roomy /\ c.headerFirst /\ NHeader(c) > 0 /\ ~Split(c) =>
+       /\ (roomy /\ c.headerFirst /\ Len(HdrStack(c)) > 0 =>
              IF c.layout = "reverse" THEN P[1].kind = "header" ELSE P[g.h].kind = "header")
+       \* the info / separator line lies between the prompt and the list
+       /\ \A ri \in RowsOf("info", g, c), rp \in RowsOf("prompt", g, c) :
+             IF c.layout = "reverse" THEN ri = rp + 1 ELSE ri = rp - 1
 =============================================================================
